@@ -364,6 +364,49 @@ pub fn initial_model(pre: &[FileEnt], pre_dirs: &[String]) -> ModelTree {
     m
 }
 
+/// Makes one A/D/E/F-A command of the patch address a position beyond the largest file the
+/// simulated disk holds (96 MiB) - a 32-bit block offset (x 128: up to 512 GiB) or a 64-bit file
+/// offset may. The reference cannot apply such a patch on this disk (`ModelTree::blocked`); the
+/// write fails with ENOSPC and apply has to report an error, not success.
+pub fn address_beyond_disk(r: &mut Rng, patch: &mut [Chunk]) -> bool {
+    let limit_blocks = (crate::simfs::MAX_FILE >> 7) as u32;
+    let cands: Vec<usize> = patch
+        .iter()
+        .enumerate()
+        .filter(|(_, c)| matches!(c, Chunk::AddData { .. } | Chunk::DeleteData { .. } | Chunk::ExpandData { .. } | Chunk::AddFile { .. }))
+        .map(|(i, _)| i)
+        .collect();
+    if cands.is_empty() {
+        return false;
+    }
+    let ci = *r.pick(&cands);
+    match &mut patch[ci] {
+        Chunk::AddData { block_offset, .. } | Chunk::DeleteData { block_offset, .. } | Chunk::ExpandData { block_offset, .. } => {
+            let old = *block_offset;
+            *block_offset = match r.below(8) {
+                0 => 1 << 25,
+                1 => (1 << 25) + 1,
+                2 => (1u32 << 25).wrapping_add(old),
+                3 => 1 << 26,
+                4 => 0x7FFF_FFFF,
+                5 => 0xFFFF_FFFF,
+                6 => limit_blocks,
+                _ => limit_blocks + r.below(1 << 20) as u32,
+            };
+        }
+        Chunk::AddFile { offset, .. } => {
+            *offset = match r.below(4) {
+                0 => 1 << 32,
+                1 => (1u64 << 32) + *offset,
+                2 => 1 << 40,
+                _ => crate::simfs::MAX_FILE + r.below(1 << 20),
+            };
+        }
+        _ => {}
+    }
+    true
+}
+
 pub fn generate(seed: u64, tier: Tier) -> Doc {
     let mut r = Rng::derive(seed, 0xC03);
     let (cfg, benign) = draw_cfg_benign(&mut r);
@@ -455,6 +498,11 @@ pub fn generate(seed: u64, tier: Tier) -> Doc {
     } else {
         None
     };
+    let mut patches = patches;
+    if failed_prelude.is_none() && g.r.chance(1, 24) {
+        let pi = g.r.usize_below(patches.len());
+        address_beyond_disk(g.r, &mut patches[pi]);
+    }
     let body = C03Doc { via, pre, pre_dirs, patches, failed_prelude };
     if let Some(w) = why_not(&body) {
         panic!("HARNESS: C03 generator produced a scenario outside the constrained space (seed {}): {}", seed, w);
@@ -956,7 +1004,8 @@ pub fn run_patches_opts(h: &mut Harness, body: &C03Doc, strict: bool, intact: &[
             }
             Err(e) => {
                 all_ok = false;
-                if strict {
+                // (a patch the reference cannot apply on this disk either has to fail)
+                if strict && !model.blocked {
                     h.violate(
                         &format!("apply-err|{:?}|{}", e, in_flight),
                         format!(
